@@ -21,7 +21,8 @@ CHECKS = {
  'C19': dict(category='proof',
              text='Per-call contract of schema_valid / valid_against_schema over an arbitrary cache satisfying the ghost invariant '
                   '(entry = uncached answer, size <= 20), and the contract of _add_to_cache over a symbolic dict (stored, frame, size bound), '
-                  'all discharged by z3; every history follows by induction. Bundled samples evaluated through the real functions.',
+                  'all discharged by z3 for ARBITRARY file names (every branch the code takes on a name is explored) with the cache consulted by the call\'s own key only; '
+                  'every history follows by induction. Bundled samples evaluated through the real functions.',
              note=_TB + ' jsonschema/json/file contents assumed deterministic; induction over histories is a meta-argument; a random-history '
                   'stand-in on the real code (fresh interpreter) runs as a second line, labelled bounded.',
              technique='contract-based deductive verification with ghost cache invariant (symbolic execution -> z3) + ground evaluation of bundled files'),
@@ -62,7 +63,7 @@ CHECKS = {
              text='Ground-complete: for every row x every integer target -10..1500 the real performance() result k satisfies S(k) >= target and '
                   'S(next worse) < target in exact integer arithmetic (72 528 obligations), plus symbolic exception-freedom and None for unknown '
                   'pairs. Not SMT-proved (inverse power has no theory): level other.',
-             note=_TB + ' Depends on C01 (score = exact formula); coefficients pinned.',
+             note=_TB + ' The real score() is evaluated on the returned mark and on the next-worse grid mark of every obligation as well; coefficients pinned.',
              technique='postcondition of performance() checked as complete ground obligations (exact integer arithmetic) + symbolic exploration for exceptions'),
  'C05': dict(category='other',
              text='Table/linear systems: f = exact spec on every centi-mark (C11 obligations re-discharged from the real code) + z3 lemmas over two '
@@ -113,20 +114,33 @@ CHECKS = {
              note=_TB + ' from_matrix/to_matrix and the interleaving clause are bounded only (labelled).',
              technique='contract-based deductive verification (log exactness + determinism per method) + bounded stand-in (replay, card round trip, schedules)'),
  'C07': dict(category='other',
-             text='Symbolic: the five helper normalisers on shape-typed strings of their pattern group (every digit content, every whitespace '
-                  'character): value preserved, canonical result language, idempotent (z3). Bounded: on the language of the general pattern '
-                  'enumerated from its syntax tree (108 k codes) and each code\'s case/space/suffix/trailing-zero variants: normal form accepted, '
-                  'whitespace-free, stable, same families, equal across variants; near-miss strings refused with ValueError, also after their accepted '
-                  'twin was normalised; frame obligation: no write to shared state in the call graph (a memo keyed on the whole argument is accepted). One known finding '
-                  '(timed family patterns disagree on spelling).',
-             note=_TB + ' The language part is enumeration (bounded in repeat counts), labelled so.',
-             technique='contract-based deductive verification of the helpers (symbolic strings -> LIA -> z3) + run-time contracts on the enumerated pattern language (bounded)'),
+             text='Symbolic (z3): (i) the five helper normalisers on shape-typed strings of their pattern group: value preserved, canonical '
+                  'result language, idempotent; (ii) the REAL normalize_event_code (with its helpers and every module pattern executed by an exact '
+                  'symbolic regex matcher) on "any content" of every shape of the general pattern (every alternative / optional part / repeat '
+                  'bound; all digit, letter-case and whitespace contents at once): the normal form is accepted, whitespace-free, unchanged by '
+                  'normalising again, in the same families; upper/lower-case, space-free, k/kg, g and trailing-zero / bare-point variants of the '
+                  'same symbolic string normalise to the identical code; with one position replaced by an ARBITRARY character the string is '
+                  'normalised exactly when it is accepted and refused with ValueError otherwise. Frame obligation: no write to shared state. '
+                  'Bounded second line: run-time contract on the enumerated language (108 k codes) and variants, near misses after their accepted twin. '
+                  'One known finding (timed family patterns disagree on spelling).',
+             note=_TB + ' Shapes have concrete length: repeats at min, min+1 and their maximum, digit runs up to 5; the 130 000 shapes that carry a '
+                  'hurdle specification are sampled in the quick tier (every 2nd / 200th), all in thorough. Digit contents ASCII. The symbolic matcher '
+                  'interprets the parse tree of the real compiled pattern with re\'s backtracking order and is compared with re on every run.',
+             technique='contract-based deductive verification: symbolic execution of the real normaliser on shape-typed strings with an exact symbolic regex matcher -> LIA -> z3; run-time contracts on the enumerated language as bounded second line'),
  'C10': dict(category='other',
-             text='Deductive: regular-language inclusions over all strings (z3): the classifier chain of event_code_to_kind covers the accepted '
-                  'language; every accepted field code has a position in FIELD_SORT_ORDER; frame obligations (no shared writes) for the seven functions. Bounded: run-time contracts of the seven functions on '
-                  'the enumerated language (no exception, key shape, group by family, distance component, text key order, sorter, relay distance).',
-             note=_TB + ' Readings: relays ordered by leg distance; SC/SH/LH and NNNNSC sort with the hurdles.',
-             technique='regular-language obligations (z3) generated from the imported patterns/lists + run-time contracts on the enumerated pattern language (bounded)'),
+             text='Symbolic (z3): the seven real functions on "any content" of every shape of the general event-code pattern (all digit, case '
+                  'and whitespace contents at once): none raises; the key is (group of the family chain, distance >= 0, code); the distance '
+                  'component equals the leading digits / 1609 x miles / whole metres of the relay leg; the text key renders the key, and a lemma '
+                  'proves that this rendering orders like the tuple for distances below 100 km (symbolic group, distance, tails); relay '
+                  'distance = legs x leg metres; duration events exactly get a time; unit and kind classifiers answer. sort_by_discipline is '
+                  'verified MODULARLY against the key contract for every list of up to three records (dicts / objects, discipline A, B, None or '
+                  'missing, keys that may tie): permutation, non-decreasing, no exception. Regular-language inclusions (classifier chain covers '
+                  'the language; every field code has a position). Frame obligations for the seven functions. Bounded second line: run-time '
+                  'contracts on the enumerated language, random key pairs and lists.',
+             note=_TB + ' Shapes as for C07 (concrete length; hurdle-specification shapes sampled in quick, all in thorough); ASCII digits; int() of '
+                  'a binary product next to an integer may fall one short (contract tolerance). Readings: relays ordered by leg distance; SC/SH/LH '
+                  'and NNNNSC sort with the hurdles.',
+             technique='contract-based deductive verification: symbolic execution of the real functions on shape-typed strings with an exact symbolic regex matcher -> LIA -> z3, modular sorter unit, regular-language obligations; enumerated-language run-time contracts as bounded second line'),
  'C12': dict(category='other',
              text='Symbolic: for disciplines covering every branch and every admissible-text shape (1-3 colon fields, 0-3 decimals, dot/comma/'
                   'semicolon) with symbolic digits: only the supplied error class escapes; returned text has seconds/minutes below 60; its duration '
@@ -142,14 +156,17 @@ CHECKS = {
              text='Not the property as stated (interleavings are outside per-call contracts) but a SUFFICIENT frame/ownership condition, inferred '
                   'from the AST of every function reachable from the entry points over shared module state: each write to a shared location is '
                   'absent, a single publish of a completely built object, or inside a module-level lock region (and such containers are read '
-                  'under the lock). Rejected sites are replayed with a forced pre-emption (two threads, sys.settrace) to exhibit a wrong answer.',
+                  'under the lock); writes to attributes of imported modules count as shared; a lock taken with .acquire() must be released in a finally; calls through '
+                  'with-statements, wrapped functions and function-valued parameters are followed; no per-thread ambient state (decimal context, '
+                  'threading.local) is configured. Rejected sites are replayed with forced pre-emptions (one or two pauses, sys.settrace), a '
+                  'lock-leak schedule, or a main-thread / other-thread differential to exhibit a wrong answer.',
              note=_TB + ' GIL atomicity of a reference store; call graph over-approximated by name; the condition can only over-report.',
              technique='frame (modifies-set) inference over the real functions + publish-after-complete / lock-region rule; forced-schedule replay'),
  'C18': dict(category='other',
              text='No JS function body is under contract (no JS front end here): nothing about the JS code is counted as proved. Complete ground '
                   'check: the Tyrving / QuadKids tables and the competition-type map of js/src equal the Python tables entry by entry. Bounded '
                   'differential run: the JS functions loaded under node (imports rewritten mechanically to require) against their Python twins '
-                  '- which are under contract in C06/C07/C11 - on the C06/C11 grids incl. hand-timed marks.',
+                  '- which are under contract in C06/C07/C11 - on the C06/C11 grids incl. hand-timed marks and every spelling of a time (h/m fields, : . , separators).',
              note=_TB + ' node 20; differential run is a bounded stand-in, labelled so.',
              technique='complete table equality (ground) + bounded node differential against the contract-verified Python twins'),
 }
